@@ -36,10 +36,12 @@ func (r *Runner) replayLift(l *Line) lineResult {
 	steps := append(append([]Step{}, l.Hist...), l.Step)
 	total := 0
 	for i := range steps {
-		if steps[i].A != "mod" || (steps[i].Enc != nil && steps[i].Enc.Kind != "canon") || len(steps[i].Lab) > 0 {
-			return lineResult{skipped: "not a pure block history"}
+		if (steps[i].A != "mod" && steps[i].A != "undo") || (steps[i].Enc != nil && steps[i].Enc.Kind != "canon") || len(steps[i].Lab) > 0 {
+			return lineResult{skipped: "not a block/undo history"}
 		}
-		total += steps[i].K
+		if steps[i].A == "mod" {
+			total += steps[i].K
+		}
 	}
 	if total >= 1<<liftS {
 		return lineResult{skipped: "too many leaves to lift"}
@@ -85,9 +87,41 @@ func (r *Runner) liftOne(l *Line, steps []Step, M uint64) (fails []Fail) {
 	mp := utreexo.NewMapPollardFromRoots(append([]Hash{}, high...), N0, false)
 	n := uint64(0)
 	mapOK := true
+	var stumpStk []utreexo.Stump
+	var nStk []uint64
 	pan := protect(func() {
 		for si := range steps {
 			st := &steps[si]
+			if st.A == "undo" {
+				// the verifier state is restored from its saved value; the map forest undoes the block
+				prevN := nStk[len(nStk)-1]
+				nStk = nStk[:len(nStk)-1]
+				stump = stumpStk[len(stumpStk)-1]
+				stumpStk = stumpStk[:len(stumpStk)-1]
+				n = prevN
+				expRoots := append(append([]string{}, highT...), st.Post...)
+				if mapOK {
+					dh := make([]Hash, len(st.D))
+					for i, s := range st.D {
+						dh[i] = sy.H(leafTerm(s))
+					}
+					tg := make([]uint64, len(st.Pf.T))
+					for i, t := range st.Pf.T {
+						tg[i] = encL(t.RI())
+					}
+					prevRoots := sy.Hs(append(append([]string{}, highT...), st.Pre...))
+					if err := mp.Undo(uint64(st.K), utreexo.Proof{Targets: tg, Proof: sy.Hs(st.Pf.P)}, dh, prevRoots); err != nil {
+						fail([]string{"C06"}, "map.part.fromroots", "error", "Undo failed: "+err.Error(), nil, nil, si)
+						mapOK = false
+					} else if got := sy.Ts(mp.GetRoots()); !eqStrs(got, expRoots) || mp.GetNumLeaves() != N0+n {
+						fail([]string{"C06"}, "map.part.fromroots", "roots", "roots / leaf count of the partial map forest after Undo", []any{N0 + n, expRoots}, []any{mp.GetNumLeaves(), got}, si)
+						mapOK = false
+					}
+				}
+				continue
+			}
+			stumpStk = append(stumpStk, utreexo.Stump{Roots: append([]Hash{}, stump.Roots...), NumLeaves: stump.NumLeaves})
+			nStk = append(nStk, n)
 			dels := make([]Hash, len(st.D))
 			for i, s := range st.D {
 				dels[i] = sy.H(leafTerm(s))
